@@ -15,7 +15,7 @@ claimed = {
  'C01': ('invariant at a hook + event-log conservation', 'Custody balance of every asset denom compared exactly with staked total + pending unbondings (+ world-ledgered donations) after every transaction, slash callback, end-block and begin-block of randomized hostile histories; a surplus must be explained step by step by the event log (recorded finding stranded-rewards), a shortfall is never tolerated.', '5/C01'),
  'C02': ('reference list of pending unbondings vs event log and raw store', 'A reference list built only from successful undelegations and the C07 slash rule is compared, at every end-of-block, with the custody payouts of the event log and the delegators balance deltas (exact, strictly-later rule), and with the independently decoded queue and per-validator index afterwards; histories pack buckets and snipe block times at completion -1ns/=/+1ns.', '5/C02'),
  'C03': ('invariant at a hook (independent store decoder) + SDK invariants', 'Share sums recomputed from an independent decoder of the raw module store and compared exactly with the recorded totals after every step; negatives and reset-on-drain checked; the modules registered invariants and all SDK invariants (crisis) evaluated every block.', '5/C03'),
- 'C06': ('spec re-execution in exact rationals around every slash callback', 'The specified slash is applied to an exact-rational copy of the pre-state ledger and every position value is compared with the real post-state (order-agnostic over entries hitting one destination, 18-digit error budget) for every real slash (observed through the verif hook) and for probe slashes of every created validator with rotating fractions on branches.', '5/C06'),
+ 'C06': ('spec re-execution in exact rationals around every slash callback', 'The specified slash is applied to an exact-rational copy of the pre-state ledger and every position value is compared with the real post-state (order-agnostic over entries hitting one destination, 18-digit error budget) for every real slash (observed through the verif hook) and for probe slashes of every created validator with rotating fractions on branches; a callback that fails is judged by what it left behind (x/staking slashes the validator anyway).', '5/C06'),
  'C07': ('reference entries + event log around every slash callback', 'Every pending unbonding entry before/after each slash callback (real and probe) must change exactly as specified: floor(f*balance) once for entries of the slashed validator with completion >= block time, byte-identical otherwise; fee collector delta equals the sum of reductions; redelegation destinations match the exact-rational model.', '5/C07'),
  'C08': ('probes: callback for every validator x fractions on branches + real slashes via hook', 'Return value, panic, rebalance flag and completeness of effects of the slash callback are observed for every real slash (the verif hook sees the error x/staking swallows) and for every validator x {1e-18, 0.01, 0.5, 1} on branches of every k-th visited state, in states with undelegated / shrunk / onward-moved redelegation destinations.', '5/C08'),
  'C10': ('independent target recomputation after every end-of-block', 'After every end-of-block the alliance-minted stake of every bonded validator is compared with a target recomputed from the post-state independently of the modules code path (tolerance: two units plus the targets sensitivity to the sub-unit uncertainty of the native bonded amount), unconditionally every block, under native delegations, full undelegations, redelegations, real slashes, jailing/unjailing and warm-up expiry.', '5/C10'),
@@ -23,7 +23,7 @@ claimed = {
  'C15': ('before/after exact values + restriction probes + raw stores vs reference entries', 'Every successful redelegation is checked for exact value movement, no payout, unchanged totals/custody and a recorded entry; after every step probe transactions on a branch check that the onward-hop restriction holds exactly while a reference entry is pending; after every end-of-block the raw records, source index and time queue equal the reference entries.', '5/C15'),
  'C16': ('generated governance traffic + store diff + asset predicate', 'Governance messages and legacy contents with every signer kind and fuzzed fields in all asset states: success implies signer = authority, rejection implies byte-identical module store, stored-asset predicate after every step, protected fields preserved by updates, delete only when empty, create only once.', '5/C16'),
  'C04': ('before/after exact-rational value of every position + round-trip probes', 'For every successful delegate/undelegate/redelegate/claim the exact-rational value of EVERY position is compared before and after: actor +-amount, everybody else unchanged, other assets exactly unchanged, within one base unit plus the 18-digit budget scaled by the share price; reported values sum <= staked total + one per position; fresh-delegation round-trip probes on branches.', '5/C04'),
- 'C05': ('non-destructive probe transactions on branches', 'After every k-th step probe transactions on discarded branches: delegate 1 unit and a large amount of every asset to every validator, claim and fully undelegate every position with a positive reported balance, undelegate from every delegation record whose validator record is gone; each must succeed; failures are matched quantitatively against recorded mechanisms (known_findings.json) and are violations otherwise.', '5/C05'),
+ 'C05': ('non-destructive probe transactions on branches', 'After every k-th step probe transactions on discarded branches: delegate 1 unit and a large amount of every asset to every validator, claim and fully undelegate every position with a positive reported balance, undelegate from every delegation record whose validator record is gone; each must succeed; failures are matched by cause (quantitative predicate and provenance of the state, e.g. a validator whose shares a user exit wiped is not the recorded zero-value-validator finding) against recorded mechanisms (known_findings.json) and are violations otherwise.', '5/C05'),
  'C09': ('per-block arithmetic oracle (2048-bit reference power) + deposit log', 'Around every end-of-block: trigger condition, n whole intervals, new total floor(T*(1-r)^n) within the 18-digit budget (never zero), exact transfer to the fee collector from the event log, clock advanced by exactly n intervals, common shrink factor of all positions, untouched warm-up/zero-rate assets, and a reference deposit log deciding retroactive charging (recorded finding clock-lag).', '5/C09'),
  'C12': ('probe: claim everything in three orders on branches + cumulative pool ledger', 'After every k-th step every delegation is claimed on branches in three orders and every claim must succeed; total paid <= total received per denom from the event log; solvency failures are classified with the exact entitlement (E) and implemented index x current-value (Q) columns of the reward shadow.', '5/C12'),
  'C13': ('entitlement at receipt (exact rationals) + settle-before-change + immediate-claim probes', 'Every withdraw_rewards of the module is attributed from the eager pre-step snapshot by weight x asset share and pro rata to exact position values; every explicit or implicit claim without value-changing event since accrual must pay that entitlement within the derived bounds; stake-changing steps with rewards pending must settle first; probe claims right after delegate/redelegate pay nothing; second claim pays nothing; claims are stake-neutral.', '5/C13'),
@@ -31,7 +31,7 @@ claimed = {
  'C18': ('export -> wipe -> import on a branch, lock-step continuation', 'At every 5th block boundary: second export byte-identical; a 14-step continuation (operations, slashes of validators with pending entries, maturity jumps) runs on the original and the re-imported state in lock-step; results, event digests, balances, supply, validator states, exports and queries compared after every step.', '5/C18'),
  'C19': ('replays on sibling branches with byte comparison, every other replay interleaved with discarded-branch (ghost) executions incl. look-ahead; re-runs in fresh processes; race detector run in thorough', 'Every history is replayed twice from its explicit step list on sibling branches in one process, one of the replays with each step first executed on a branch that is thrown away (state kept outside the store shows up as a divergence), and a sample of histories is executed once more in a process of its own and must give the same digest; results, event digests and SHA-256 of the raw alliance/bank/staking/distribution/slashing/auth stores compared after every step/block. The static source-scan clause of the property is out of reach of runtime monitoring and is not decided.', '5/C19'),
  'C20': ('independent enumeration of primary records vs every query and binding', 'Every gRPC query for all filter arguments from the live state (plus absent ones), unpaginated and stitched from key/offset pages and with count_total, compared as multisets with an independent raw-store enumeration and the reference entries; reported balance probed with Undelegate(balance)/(balance+1); contract bindings compared field by field with gRPC.', '5/C20'),
- 'C17': ('recover around every end-of-block under accepted-configuration fuzz', 'Every end-of-block of every history of the gov/extreme/time profiles must return without error or panic; configuration values are only those the modules own handlers accepted on the main line.', '5/C17'),
+ 'C17': ('recover around every end-of-block under accepted-configuration fuzz', 'Every end-of-block of every history of the gov/extreme/time profiles must return without error or panic; configuration values are only those the modules own handlers accepted on the main line; the recorded decay-overflow finding is matched only when the intervals elapsed since decay was configured explain the overflow.', '5/C17'),
 }
 
 checks = []
